@@ -17,20 +17,20 @@ importable, so that the same functions run natively on the real classes.
 """
 
 
-def line_blank(pr, line_node, g_eol, g_open, g_tag, g_type, g_name, g_value, g_doc, g_hdr_open, g_hdr, g_count):
+def line_blank(pr, line_node, g_eol, g_open, g_tag, g_type, g_name, g_value, g_doc, g_line, g_hdr_open, g_hdr, g_count):
     """An empty line (no statement, no blanks, no comment)."""
     pr.visit_line(line_node, ())
 
 
 def line_comment_only(pr, comment_node, line_node,
-                      g_eol, g_open, g_tag, g_type, g_name, g_value, g_doc, g_hdr_open, g_hdr, g_count):
+                      g_eol, g_open, g_tag, g_type, g_name, g_value, g_doc, g_line, g_hdr_open, g_hdr, g_count):
     """A line that holds only a comment (possibly after blanks)."""
     pr.visit_comment(comment_node, ())
     pr.visit_line(line_node, ())
 
 
 def line_field(pr, type_has_identifier, type_identifier_node, field_type, name_node, stmt_node, has_comment, comment_node,
-               line_node, g_eol, g_open, g_tag, g_type, g_name, g_value, g_doc, g_hdr_open, g_hdr, g_count):
+               line_node, g_eol, g_open, g_tag, g_type, g_name, g_value, g_doc, g_line, g_hdr_open, g_hdr, g_count):
     """`type name [# comment]`: the identifiers of a versioned type first, then the name, then the statement."""
     if type_has_identifier:
         pr.visit_identifier(type_identifier_node, ())
@@ -43,7 +43,7 @@ def line_field(pr, type_has_identifier, type_identifier_node, field_type, name_n
 
 def line_constant(pr, type_has_identifier, type_identifier_node, constant_type, name_node, expr_has_identifier,
                   expr_identifier_node, value, stmt_node, has_comment, comment_node, line_node,
-                  g_eol, g_open, g_tag, g_type, g_name, g_value, g_doc, g_hdr_open, g_hdr, g_count):
+                  g_eol, g_open, g_tag, g_type, g_name, g_value, g_doc, g_line, g_hdr_open, g_hdr, g_count):
     """`type name = expression [# comment]`."""
     if type_has_identifier:
         pr.visit_identifier(type_identifier_node, ())
@@ -57,7 +57,7 @@ def line_constant(pr, type_has_identifier, type_identifier_node, constant_type, 
 
 
 def line_padding(pr, void_type, stmt_node, has_comment, comment_node, line_node,
-                 g_eol, g_open, g_tag, g_type, g_name, g_value, g_doc, g_hdr_open, g_hdr, g_count):
+                 g_eol, g_open, g_tag, g_type, g_name, g_value, g_doc, g_line, g_hdr_open, g_hdr, g_count):
     """`voidN [# comment]`."""
     pr.visit_statement_padding_field(stmt_node, (void_type, None))
     if has_comment:
@@ -67,7 +67,7 @@ def line_padding(pr, void_type, stmt_node, has_comment, comment_node, line_node,
 
 def line_directive_with_expression(pr, name, name_node, expr_has_identifier, expr_identifier_node, value, stmt_node,
                                    has_comment, comment_node, line_node,
-                                   g_eol, g_open, g_tag, g_type, g_name, g_value, g_doc, g_hdr_open, g_hdr, g_count):
+                                   g_eol, g_open, g_tag, g_type, g_name, g_value, g_doc, g_line, g_hdr_open, g_hdr, g_count):
     """`@name expression [# comment]` (name == name_node.text)."""
     pr.visit_identifier(name_node, ())
     if expr_has_identifier:
@@ -79,7 +79,7 @@ def line_directive_with_expression(pr, name, name_node, expr_has_identifier, exp
 
 
 def line_directive_without_expression(pr, name, name_node, stmt_node, has_comment, comment_node, line_node,
-                                      g_eol, g_open, g_tag, g_type, g_name, g_value, g_doc, g_hdr_open, g_hdr, g_count):
+                                      g_eol, g_open, g_tag, g_type, g_name, g_value, g_doc, g_line, g_hdr_open, g_hdr, g_count):
     """`@name [# comment]` (name == name_node.text)."""
     pr.visit_identifier(name_node, ())
     pr.visit_statement_directive_without_expression(stmt_node, (None, name))
@@ -89,7 +89,7 @@ def line_directive_without_expression(pr, name, name_node, stmt_node, has_commen
 
 
 def line_service_response_marker(pr, stmt_node, has_comment, comment_node, line_node,
-                                 g_eol, g_open, g_tag, g_type, g_name, g_value, g_doc, g_hdr_open, g_hdr, g_count):
+                                 g_eol, g_open, g_tag, g_type, g_name, g_value, g_doc, g_line, g_hdr_open, g_hdr, g_count):
     """`--- [# comment]`."""
     pr.visit_statement_service_response_marker(stmt_node, ())
     if has_comment:
@@ -97,11 +97,11 @@ def line_service_response_marker(pr, stmt_node, has_comment, comment_node, line_
     pr.visit_line(line_node, ())
 
 
-def end_of_line(pr, node, g_eol, g_open, g_tag, g_type, g_name, g_value, g_doc, g_hdr_open, g_hdr, g_count):
+def end_of_line(pr, node, g_eol, g_open, g_tag, g_type, g_name, g_value, g_doc, g_line, g_hdr_open, g_hdr, g_count):
     pr.visit_end_of_line(node, ())
 
 
-def end_of_input(pr, definition_node, g_eol, g_open, g_tag, g_type, g_name, g_value, g_doc, g_hdr_open, g_hdr, g_count):
+def end_of_input(pr, definition_node, g_eol, g_open, g_tag, g_type, g_name, g_value, g_doc, g_line, g_hdr_open, g_hdr, g_count):
     """After the last line: the dispatch on the root node `definition` (visit_definition if the class defines it)."""
     method = getattr(pr, "visit_definition", pr.generic_visit)
     method(definition_node, ())
